@@ -125,8 +125,20 @@ theorem pseudoDefine_not_data : ∀ r ∈ Gen.instructions, r.isPseudoDefine = t
   decide +kernel
 
 /-- what is needed of an EQU-like statement for "the label keeps the operand value": the operand is a pseudo
-operand (always the case for statements produced by `parseLine`) whose value is not a statement index -/
-def PseudoValueHyp (s : Stmt) : Prop := s.operand.kind = .pseudo ∧ s.operand.value.isAddress = false
+operand (always the case for statements produced by `parseLine`) whose value is not a statement index and
+(batch 4, fixes 0f280be and d7356d4) not an expression: an EQU defined by an expression is bound to the VALUE of the
+expression, see `C02_equ_symbol` and `C02_equ_expression_symbol` below -/
+def PseudoValueHyp (s : Stmt) : Prop :=
+  s.operand.kind = .pseudo ∧ s.operand.value.isAddress = false ∧
+  s.operand.value.isExpression = false ∧ s.operand.value.isAddrExpr = false
+
+theorem not_expr_of_flags {v : Value} (h1 : v.isExpression = false) (h2 : v.isAddrExpr = false) :
+    ∀ l r op m ae, v ≠ .expr l r op m ae := by
+  intro l r op m ae he
+  subst he
+  cases ae
+  · cases h1
+  · cases h2
 
 theorem C02_symbols {fs : Files} {lines : List Str} {a : Assembly} (h : assemble fs lines = .ok a) :
     SymbolsBound a PseudoValueHyp := by
@@ -142,21 +154,24 @@ theorem C02_symbols {fs : Files} {lines : List Str} {a : Assembly} (h : assemble
     have hmem := symEntries_mem (i := 0) hs0 hl0
     rw [← htab, Nat.zero_add] at hmem
     have hget := get?_of_mem hnodup hmem
-    obtain ⟨v', hv', hfin⟩ := finalSymTab_get st.hfinal hget
+    obtain ⟨v1, v', hev, hv', hfin⟩ := st.symtab_get hget
     rw [hk.1]
     constructor
     · intro hpd
       have hpd0 : s0.row.isPseudoDefine = false := by rw [← hk.2]; exact hpd
-      simp only [hpd0, Bool.false_eq_true, if_false, finalVal, addrOf, hs, Option.map_some] at hfin
+      simp only [hpd0, Bool.false_eq_true, if_false, evalSym_address, Outcome.ok.injEq] at hev
+      subst hev
+      simp only [finalVal, addrOf, hs, Option.map_some] at hfin
       rw [hv', ← hfin]
     · intro hpd hph
-      obtain ⟨hkind, hna⟩ := hph
+      obtain ⟨hkind, hna, hne1, hne2⟩ := hph
       have hpd0 : s0.row.isPseudoDefine = true := by rw [← hk.2]; exact hpd
       have hdata : isDataRow s0.row = false :=
         pseudoDefine_not_data s0.row (by rw [← hk.2]; exact st.row_mem hs) hpd0
       have hop : s.operand = s0.operand := (st.op05.2 i s0 s hs0 hs).2 hdata (Or.inr hkind)
-      simp only [hpd0, if_true] at hfin
-      rw [← hop] at hfin
+      simp only [hpd0, if_true] at hev
+      rw [← hop, evalSym_plain _ _ (not_expr_of_flags hne1 hne2)] at hev
+      cases hev
       rw [hv', ← hfin]
       unfold finalVal
       split
@@ -174,6 +189,104 @@ theorem C02_symbols {fs : Files} {lines : List Str} {a : Assembly} (h : assemble
     · exact hij
     · have := buildSymTab_dup hij ht0 hs0 hlt0.symm (by rw [← hlt0]; exact hl0)
       rw [st.hsym] at this; cases this
+
+/-! #### EQU defined by an expression (batch 4, fixes 0f280be and d7356d4) -/
+
+/-- the general form of the EQU clause: the label of an EQU-like statement with a pseudo operand is bound to its
+operand value passed through `evalSym` (an expression is evaluated against the table `st.t` built from the labels,
+anything else is kept) and `finalVal` -/
+theorem C02_equ_symbol {fs : Files} {lines : List Str} {a : Assembly} (st : Stages fs lines a)
+    {i : Nat} {s : Stmt} (hs : a.stmts[i]? = some s) (hl : s.label.isEmpty = false)
+    (hpd : s.row.isPseudoDefine = true) (hkind : s.operand.kind = .pseudo) :
+    ∃ v1 v', evalSym a.stmts st.t s.operand.value = .ok v1 ∧ finalVal a.stmts v1 = some v' ∧
+      a.symtab.get? s.label = some v' := by
+  obtain ⟨htab, hnodup⟩ := buildSymTab_some st.hsym
+  have hnodup := hnodup (by simp [SymTab.keys])
+  simp only [List.nil_append] at htab
+  obtain ⟨s0, hs0, hk⟩ := st.keep05.get' hs
+  have hl0 : s0.label.isEmpty = false := by rw [← hk.1]; exact hl
+  have hmem := symEntries_mem (i := 0) hs0 hl0
+  rw [← htab, Nat.zero_add] at hmem
+  have hget := get?_of_mem hnodup hmem
+  have hpd0 : s0.row.isPseudoDefine = true := by rw [← hk.2]; exact hpd
+  have hdata : isDataRow s0.row = false :=
+    pseudoDefine_not_data s0.row (by rw [← hk.2]; exact st.row_mem hs) hpd0
+  have hop : s.operand = s0.operand := (st.op05.2 i s0 s hs0 hs).2 hdata (Or.inr hkind)
+  simp only [hpd0, if_true] at hget
+  rw [← hop, ← hk.1] at hget
+  obtain ⟨v1, v', hev, hv', hfin⟩ := st.symtab_get hget
+  exact ⟨v1, v', hev, hfin, hv'⟩
+
+/-- an EQU defined by an expression of constants (`resolve` against the label table gives a number): the final symbol
+table binds the label to that number -/
+theorem C02_equ_expression_symbol {fs : Files} {lines : List Str} {a : Assembly} (st : Stages fs lines a)
+    {i : Nat} {s : Stmt} (hs : a.stmts[i]? = some s) (hl : s.label.isEmpty = false)
+    (hpd : s.row.isPseudoDefine = true) (hkind : s.operand.kind = .pseudo)
+    {l r : Value} {op : Char} {m : Mode} {ae : Bool} (hv : s.operand.value = .expr l r op m ae)
+    {x : Value} (hx : s.operand.value.resolve st.t = .ok x) (hn : x.isNumeric = true) :
+    a.symtab.get? s.label = some x := by
+  obtain ⟨v1, v', hev, hfin, hget⟩ := C02_equ_symbol st hs hl hpd hkind
+  rw [hv, evalSym_expr, ← hv, hx] at hev
+  have hna : x.isAddrExpr = false := by cases x <;> first | rfl | cases hn
+  simp only [hna, Bool.false_eq_true, if_false, hn, if_true, Outcome.ok.injEq] at hev
+  subst hev
+  cases x with
+  | numeric _ _ _ _ => simp only [finalVal, Option.some.injEq] at hfin; rw [hget, hfin]
+  | _ => cases hn
+
+/-- an EQU defined by a label expression (`resolve` gives an expression with a statement index in it): the final
+symbol table binds the label to the number `calculate_address_offset` computes on the final addresses -/
+theorem C02_equ_label_expression_symbol {fs : Files} {lines : List Str} {a : Assembly} (st : Stages fs lines a)
+    {i : Nat} {s : Stmt} (hs : a.stmts[i]? = some s) (hl : s.label.isEmpty = false)
+    (hpd : s.row.isPseudoDefine = true) (hkind : s.operand.kind = .pseudo)
+    {l r : Value} {op : Char} {m : Mode} {ae : Bool} (hv : s.operand.value = .expr l r op m ae)
+    {x y : Value} (hx : s.operand.value.resolve st.t = .ok x) (hae : x.isAddrExpr = true)
+    (hy : addrOffset a.stmts x = .ok y) : a.symtab.get? s.label = some y := by
+  obtain ⟨v1, v', hev, hfin, hget⟩ := C02_equ_symbol st hs hl hpd hkind
+  have hn := addrOffset_isNumeric hy
+  rw [hv, evalSym_expr, ← hv, hx] at hev
+  simp only [hae, if_true, hy, hn, Outcome.ok.injEq] at hev
+  subst hev
+  cases y with
+  | numeric _ _ _ _ => simp only [finalVal, Option.some.injEq] at hfin; rw [hget, hfin]
+  | _ => cases hn
+
+/-- `L NOP / T EQU L+1`: the listing's symbol table shows T with the value 1, the address of L plus 1 (the Python
+prints `$0001 T`) -/
+def C02_equWitness : List Str := ["L NOP\n", "T EQU L+1\n"].map String.toList
+
+private def equCheck (a : Assembly) : Bool :=
+  (match a.symtab.get? "T".toList with
+   | some (.numeric 1 _ _ false) => true
+   | _ => false) &&
+  symtabLines a.symtab == some ["$00   L".toList, "$0001 T".toList]
+
+theorem C02_equ_label_expression_witness :
+    ∃ a h md, assemble [] C02_equWitness = .ok a ∧ a.symtab.get? "T".toList = some (.numeric 1 h md false) ∧
+      symtabLines a.symtab = some ["$00   L".toList, "$0001 T".toList] := by
+  obtain ⟨a, ha, hchk⟩ := checkProgram_sound (lines := C02_equWitness) (check := equCheck) (by decide +kernel) []
+  unfold equCheck at hchk
+  simp only [Bool.and_eq_true, beq_iff_eq] at hchk
+  obtain ⟨h1, h2⟩ := hchk
+  split at h1
+  · rename_i h md hg
+    exact ⟨a, h, md, ha, hg, h2⟩
+  · cases h1
+
+/-- `A EQU 2*3 / B EQU A+1 / LDA #B`: an EQU defined through another EQU; B is listed as 7 and `LDA #B` loads 7 -/
+def C02_equChainWitness : List Str := ["A EQU 2*3\n", "B EQU A+1\n", " LDA #B\n"].map String.toList
+
+private def equChainCheck (a : Assembly) : Bool :=
+  symtabLines a.symtab == some ["$06   A".toList, "$07   B".toList] && a.image == some [0x86, 7]
+
+theorem C02_equ_chain_witness :
+    ∃ a, assemble [] C02_equChainWitness = .ok a ∧
+      symtabLines a.symtab = some ["$06   A".toList, "$07   B".toList] ∧ a.image = some [0x86, 7] := by
+  obtain ⟨a, ha, hchk⟩ :=
+    checkProgram_sound (lines := C02_equChainWitness) (check := equChainCheck) (by decide +kernel) []
+  unfold equChainCheck at hchk
+  simp only [Bool.and_eq_true, beq_iff_eq] at hchk
+  exact ⟨a, ha, hchk.1, hchk.2⟩
 
 /-- a label that occurs twice (after INCLUDE expansion) is rejected with a diagnostic -/
 theorem C02_duplicate_label {fs : Files} {lines : List Str} {parsed ss0 : List Stmt}
@@ -219,30 +332,30 @@ theorem C02_size_fixed :
     exact ⟨a, s, ha, hs, hchk.1, hchk.2⟩
   · cases hchk
 
-/-- an ORG in the middle of a program is accepted -/
+/-- an ORG in the middle of a program -/
 def C02_orgWitness : List Str := [" NOP\n", " ORG $100\n", " NOP\n"].map String.toList
 
-private def orgCheck (a : Assembly) : Bool :=
-  match a.stmts[1]? with
-  | some s => s.row.mnemonic == "ORG"
-  | none => false
+/-- REPAIRED (finding B1, formerly `C02_org_counterexample` / `C02_Statement_false`): an ORG after the first byte of
+the program used to be accepted, with an image that is the plain concatenation while the listing addresses jump;
+since fix f9c374f it is a diagnostic ("ORG must come before the first label and the first byte"). -/
+theorem C02_org_counterexample_fixed (fs : Files) : assemble fs C02_orgWitness = .diag :=
+  diagProgram_sound (by decide +kernel) fs
 
-theorem C02_org_counterexample :
-    ∃ a s, assemble [] C02_orgWitness = .ok a ∧ a.stmts[1]? = some s ∧ s.row.mnemonic = "ORG" := by
-  obtain ⟨a, ha, hchk⟩ := checkProgram_sound (lines := C02_orgWitness) (check := orgCheck) (by decide +kernel) []
-  unfold orgCheck at hchk
-  split at hchk
-  · rename_i s hs
-    exact ⟨a, s, ha, hs, by simpa using hchk⟩
-  · cases hchk
+/-- the known-finding witness `NOP / ORG $10 / NOP / ORG $5 / NOP` is rejected as well -/
+theorem C02_finding_B1_fixed (fs : Files) :
+    assemble fs ([" NOP\n", " ORG $10\n", " NOP\n", " ORG $5\n", " NOP\n"].map String.toList) = .diag :=
+  diagProgram_sound (by decide +kernel) fs
 
-/-- `C02_Statement` does not hold: its clause "an ORG is the first statement" is violated by the ORG witness
-(the byte-count clause, formerly refuted by `LDA -100,X`, now holds: `Props/C02Size.lean`) -/
-theorem C02_Statement_false : ¬ C02_Statement := by
-  intro hC
-  obtain ⟨a, s, ha, hs, hm⟩ := C02_org_counterexample
-  have := (hC [] _ a ha).2.2.2.2.1 1 s hs hm
-  cases this
+/-- an ORG after statements that emit nothing and carry no address label (EQU, NAM) is still accepted -/
+theorem C02_org_after_equ_accepted (fs : Files) :
+    ∃ a, assemble fs (["C1 EQU 5\n", " NAM X\n", " ORG $100\n", "S NOP\n"].map String.toList) = .ok a ∧
+      a.image = some [0x12] ∧ (a.stmts[3]?).bind addrNat = some 0x100 := by
+  obtain ⟨a, ha, hchk⟩ := checkProgram_sound
+    (lines := ["C1 EQU 5\n", " NAM X\n", " ORG $100\n", "S NOP\n"].map String.toList)
+    (check := fun a => a.image == some [0x12] && (a.stmts[3]?).bind addrNat == some 0x100)
+    (by decide +kernel) fs
+  simp only [Bool.and_eq_true, beq_iff_eq] at hchk
+  exact ⟨a, ha, hchk.1, hchk.2⟩
 
 /-! ### non-vacuity -/
 
@@ -255,7 +368,8 @@ private def exampleCheck (a : Assembly) : Bool :=
   a.stmts.all (fun s => (stmtBytes s).map List.length == some s.pkg.size) &&
   (a.stmts.drop 1).all (fun s => s.row.mnemonic != "ORG") &&
   (match a.stmts[1]? with
-   | some s => s.row.isPseudoDefine && s.operand.kind == .pseudo && !s.operand.value.isAddress
+   | some s => s.row.isPseudoDefine && s.operand.kind == .pseudo && !s.operand.value.isAddress &&
+       !s.operand.value.isExpression && !s.operand.value.isAddrExpr
    | none => false) &&
   (match a.stmts[4]? with
    | some s => addrNat s == some 0x0E03 && a.symtab.get? s.label == some s.pkg.address
